@@ -11,3 +11,8 @@ def run(ctx, rep):
     cond.rule_refine_fresh(mod, rep)
     from ..rules import misc
     misc.rule_dense_stride(mod, rep)
+    import re
+    from ..rules import more2
+    more2.rule_arg_names(mod, rep, lambda f: re.match(r"p[sdcz]gssvx$|[sdcz]gstrs$|[sdcz]gsrfs$|[sdcz]laqgs$|[sdcz]gsequ$", f.name) is not None, floor=1)
+    from ..rules import equil
+    equil.rule_laqgs_table(mod, rep)          # the driver's B/X scaling decisions rest on the equed that ?laqgs reports
